@@ -139,12 +139,50 @@ def check_angle_args(p, inp):
                 list(r), list(e), call)
 
 
+def successor(rng, inp):
+    """the same call with exactly ONE argument changed (another size with the same flattening, another flattening with the same size,
+    another start longitude, another distance, another azimuth): whatever a routine remembers from one call must not leak into the next"""
+    out = dict(inp)
+    kind = rng.choice(['size', 'size', 'flattening', 'lon', 'dist', 'az'])
+    if kind == 'size':
+        a = inp['a'] * (1 + rng.choice([-1, 1]) * 10 ** rng.uniform(-4, -2.3))
+        out['a'] = min(6.4e6, max(6.3e6, a))
+        if out['a'] == inp['a']:
+            out['a'] = 6.35e6
+    elif kind == 'flattening':
+        out['invf'] = min(320.0, max(280.0, inp['invf'] + rng.choice([-1, 1]) * rng.uniform(0.01, 15)))
+    elif kind == 'lon':
+        out['lon1'] = rng.uniform(-180, 180)
+    elif kind == 'dist':
+        out['dist'] = gen_dist(rng)
+    else:
+        out['az'] = rng.uniform(0, 360)
+    return out, kind
+
+
+def check_history(p, inp, rng):
+    """call, call the one-argument-changed successor, call again: the first and third results are identical"""
+    nxt, kind = successor(rng, inp)
+    args = lambda i: (i['lat1'], i['lon1'], i['az'], i['dist'], ell_of(i))
+    call = call_str(inp) + '; ' + call_str(nxt) + '; ' + call_str(inp)
+    ci = dict(inp, successor=kind)
+    p.case('history', ci, True)
+    ok, r = p.guarded('direct-raises', 'history', ci, lambda: (G.vincdir(*args(inp)), G.vincdir(*args(nxt)), G.vincdir(*args(inp))), call)
+    if ok:
+        p.check(tuple(r[0]) == tuple(r[2]), 'direct-history-dependent', 'history', ci, list(r[2]), list(r[0]), call)
+
+
 def worker(sub, idx, nchunks, n_lines, n_angle):
     rng = sub.rng
     for _ in range(n_lines):
-        check_line(sub, gen_line(rng))
+        inp = gen_line(rng)
+        check_line(sub, inp)
+        if rng.random() < 0.3:
+            check_line(sub, successor(rng, inp)[0])      # judged by the oracle like any other call
     for _ in range(n_angle):
         inp = gen_line(rng)
+        if rng.random() < 0.5:
+            check_history(sub, inp, rng)
         # angle classes carry a finite resolution; keep the inputs inside the closed domain after conversion
         check_angle_args(sub, inp)
 
